@@ -8,7 +8,8 @@ for d in sorted(glob.glob('/verif/seeded/*/meta.json')):
     det = [k.split()[1] for k, v in runs.items() if v.get('detected')]
     miss = [k.split()[1] for k, v in runs.items() if not v.get('detected')]
     sigs = '; '.join(sorted({s for v in runs.values() if v.get('detected') for s in v.get('signatures', '').split(';') if s}))[:110]
-    rows.append('| %s | %s | %s | %s | %s |' % (m['id'], m['needs_to_manifest'][:150].replace('|', '/'), ' '.join(sorted(set(det))) or '-', ' '.join(sorted(set(miss) - set(det))) or '-', sigs))
+    ident = m['id'] + (' (superseded, see meta.json)' if m.get('superseded') else '') + (' (ported)' if m.get('ported') else '')
+    rows.append('| %s | %s | %s | %s | %s |' % (ident, m['needs_to_manifest'][:150].replace('|', '/'), ' '.join(sorted(set(det))) or '-', ' '.join(sorted(set(miss) - set(det))) or '-', sigs))
 out = ['| seeded change | needs, in order to manifest | caught by (quick tier) | not caught by | signatures |', '|---|---|---|---|---|'] + rows
 text = '\n'.join(out)
 if '--write' in sys.argv:
